@@ -18,7 +18,7 @@ RULE = ("(a) schedules (source-line granularity) of {accept thread submitting 2-
 ASSUMPTIONS = ["scheduling points are source lines of Pool/Worker methods and the job body; CPython can also switch between bytecodes of one line",
                "a job accepted just before a racing close() may be dropped (the statement's 'starts no further job'); only runs without close require every accepted job to run",
                "a refusal is illegitimate only if accepted-minus-completed(notify_done returned) < THREADPOOL_SIZE at process() entry"]
-REQUIRED_REACH = ["schedules_explored", "jobs_executed", "refusals_seen", "closes_completed", "socket_clients_served", "socket_clients_refused", "unix_socket_runs", "proxy_retries_after_refusal", "start_faults_injected"]
+REQUIRED_REACH = ["schedules_explored", "jobs_executed", "refusals_seen", "closes_completed", "socket_clients_served", "socket_clients_refused", "unix_socket_runs", "proxy_retries_after_refusal", "start_faults_injected", "workers_killed_by_exiting_jobs"]
 SHARD_TIMEOUT = {"quick": 240, "thorough": 3000}
 
 
@@ -40,6 +40,7 @@ class Mon:
         self.started_after_close = []
         self.violations = []
         self.pool = None
+        self.killed = set()        # id(worker) whose job ended with a BaseException that is not an Exception (the thread is gone with it)
         self.grow_starts = 0       # Worker.start() calls made by process() (not by the pool's constructor)
         self.faulted = []          # jobs whose process() failed because the injected thread-start fault hit it
 
@@ -50,6 +51,10 @@ class Mon:
             self.max_nonretired = max(self.max_nonretired, n)
             if n > self.size:
                 self.violations.append(("too-many-workers", "%d worker threads started and not told to retire with THREADPOOL_SIZE=%d" % (n, self.size)))
+
+    def note_killed(self):
+        with self.lock:
+            self.killed.add(id(threading.current_thread()))
 
     def job_started(self, j):
         with self.lock:
@@ -114,6 +119,7 @@ def controlled_run(P, cfg, choices, strategy):
     shared = {"pool": None, "pool_ready": sc.Event(), "submitted": sc.Event()}
 
     raisers = set(cfg.get("raisers", ()))
+    exiters = set(cfg.get("exiters", ()))
 
     def make_job(j):
         def job():
@@ -123,6 +129,11 @@ def controlled_run(P, cfg, choices, strategy):
             x += 1
             if j in raisers:
                 raise RuntimeError("job %d ends with an exception" % j)     # a job may end by raising: its worker is free again all the same
+            if j in exiters:
+                # sys.exit() inside a job: the worker's thread goes with it. That worker is lost (it may stay listed as busy, as on the pinned
+                # tree); nobody may ever be handed to it again
+                mon.note_killed()          # (a helper: the job's own lines are scheduling points, the monitor's lock is never held across one)
+                raise SystemExit("job %d calls sys.exit()" % j)
             return x
         return job
     jobs = [make_job(j) for j in range(njobs)]
@@ -216,6 +227,11 @@ def judge(cfg, res, mon, rec, pay):
         # nobody busy, nobody listed who has exited, and the listed workers are exactly the live ones
         pool = mon.pool
         busy, idle = list(pool.busy), list(pool.idle)
+        with mon.lock:
+            killed = set(mon.killed)
+        if killed:
+            rec.count("workers_killed_by_exiting_jobs", len(killed))
+        busy = [w for w in busy if id(w) not in killed]          # (a worker whose thread died inside its job stays on the books as busy: tolerated)
         dead = [w for w in busy + idle if id(w) in exited]
         live = [w for w in started if id(w) not in exited]
         if busy or dead or len(idle) != len(live):
@@ -415,6 +431,10 @@ def plan(tier, seed):
         # grow - retire - grow again needs four jobs: a few such configurations also in the quick tier
         for size, mn in ((2, 1), (3, 1), (3, 2)):
             cfgs.append({"size": size, "min": mn, "jobs": 4, "closer": "none"})
+    # jobs that end the worker's thread (sys.exit() inside the job)
+    for size, mn, jobs, exiters in (((2, 1, 4, (0,)), (3, 2, 4, (1,)), (2, 2, 3, (0,)), (1, 1, 3, (0,))) if tier == "quick" else
+                                    [(s_, m_, j_, e_) for s_ in (1, 2, 3) for m_ in range(1, s_ + 1) for j_ in (3, 4) for e_ in ((0,), (1,), (0, 2))]):
+        cfgs.append({"size": size, "min": mn, "jobs": jobs, "closer": "none", "exiters": exiters})
     # a worker thread that cannot be started (Thread.start raises) when the pool grows: that job is lost, but the pool's books, later
     # refusals and close() must be as right as before
     for size, mn, jobs, closer, k in (((2, 1, 4, "none", 1), (3, 1, 4, "none", 2), (3, 2, 4, "none", 1), (2, 1, 3, "same", 1)) if tier == "quick" else
